@@ -448,6 +448,48 @@ impl Prop for C03 {
                 }
             },
         ));
+        v.push(Scope::new(
+            "nested",
+            "boxes nested 1..4 deep with 0..1 blank cells between the walls of successive levels, the innermost holding nothing, a label, a word, a lone +, a free - or | line, a bare box, or two labelled boxes side by side",
+            |f| {
+                let contents: [&[&str]; 8] = [
+                    &[" "],
+                    &["a"],
+                    &["ab c"],
+                    &["+"],
+                    &["--"],
+                    &["|", "|"],
+                    &["+-+", "| |", "+-+"],
+                    &["+-+ +-+", "|a| |b|", "+-+ +-+"],
+                ];
+                for content in contents {
+                    for depth in 1..=4usize {
+                        for padx in 0..=1usize {
+                            for pady in 0..=1usize {
+                                let mut rows: Vec<String> = content.iter().map(|s| s.to_string()).collect();
+                                for _ in 0..depth {
+                                    let w = rows.iter().map(|r| r.chars().count()).max().unwrap_or(0) + 2 * padx;
+                                    let mut next = vec![format!("+{}+", "-".repeat(w))];
+                                    for _ in 0..pady {
+                                        next.push(format!("|{}|", " ".repeat(w)));
+                                    }
+                                    for r in &rows {
+                                        let n = r.chars().count();
+                                        next.push(format!("|{}{}{}|", " ".repeat(padx), r, " ".repeat(w - padx - n)));
+                                    }
+                                    for _ in 0..pady {
+                                        next.push(format!("|{}|", " ".repeat(w)));
+                                    }
+                                    next.push(format!("+{}+", "-".repeat(w)));
+                                    rows = next;
+                                }
+                                f(Case::s(rows.join("\n")));
+                            }
+                        }
+                    }
+                }
+            },
+        ));
         let fd = if tier == Tier::Quick { 2 } else { 3 };
         v.push(Scope::new(
             &format!("frame-defects-{}", fd),
